@@ -71,7 +71,7 @@ func (c04) Budget(tier string) runner.Budget {
 
 func (c04) Describe() runner.Description {
 	return runner.Description{
-		Rule:        "each case is one seeded history (5..120 calls, swarm-varied mix) on the real AccountDB over a committed seeded base state: every mutator (balance add/sub/set, nonce set/increase, storage set/remove, SetState, SetCode, CreateAccount, Suicide, AddLog, Add/SubRefund, SetTransientState, access-list address/slot, FT add/sub/set), Snapshot/RevertToSnapshot nested to depth 8, cache-warming reads, Prepare, IntermediateRoot, Commit + warm/cold reopen. Balance values include uint256 boundary values (a balance slot is a storage slot of the token contract). In 5% of the cases the base state has no native-token binding and the history binds it inside snapshots that are reverted at once (the binding is also cached per process, outside the journal). In 12% of the cases the instance's life crosses a fork height: a preamble of mutators runs below Proposal002's height (balance writes not journalled), the history - every snapshot and revert - above it. Oracles: observation vector (balance, nonce, slots, code, code hash, existence, suicided flag, refund, logs, access list, transient storage over a closed universe) recorded at each snapshot must be identical right after its revert; twin run without the reverted segments must give the same intermediate and committed root. distinct_nontrivial = distinct (op-kind sequence inside reverted segments) fingerprints of histories with at least one revert that undid >=2 mutators.",
+		Rule:        "each case is one seeded history (5..120 calls, swarm-varied mix) on the real AccountDB over a committed seeded base state: every mutator (balance add/sub/set, nonce set/increase, storage set/remove, SetState, SetStorage (several slots by one call), SetCode, CreateAccount, Suicide, AddLog, Add/SubRefund, SetTransientState, access-list address/slot, FT add/sub/set), Snapshot/RevertToSnapshot nested to depth 8, cache-warming reads, Prepare, IntermediateRoot, Commit + warm/cold reopen. Balance values include uint256 boundary values (a balance slot is a storage slot of the token contract). In 5% of the cases the base state has no native-token binding and the history binds it inside snapshots that are reverted at once (the binding is also cached per process, outside the journal). In 12% of the cases the instance's life crosses a fork height: a preamble of mutators runs below Proposal002's height (balance writes not journalled), the history - every snapshot and revert - above it. Oracles: observation vector (balance, nonce, slots, code, code hash, existence, suicided flag, refund, logs, access list, transient storage over a closed universe) recorded at each snapshot must be identical right after its revert; twin run without the reverted segments must give the same intermediate and committed root. distinct_nontrivial = distinct (op-kind sequence inside reverted segments) fingerprints of histories with at least one revert that undid >=2 mutators.",
 		Assumptions: []string{"the observation universe (6 addresses x 4 slots x 2 FT names) is closed under the generated operations", "Prepare/Finalise/Commit are only issued with no open snapshot, as the block executor does"},
 		Real:        []string{"storage/account (AccountDB, journal, account objects, access list, transient storage)", "storage/trie", "storage/rlp"},
 		Stub:        []string{"disk: simdisk.KV"},
@@ -102,7 +102,7 @@ var c04Slots = [][]byte{
 
 var c04FT = []string{"SYS-ft1", "ft2"}
 
-var c04Mutators = []string{"addbal", "subbal", "setbal", "setnonce", "incnonce", "setdata", "rmdata", "setstate", "setcode", "create", "suicide", "addlog", "addrefund", "subrefund", "tstore", "aladdr", "alslot", "addft", "subft", "setft", "transfer"}
+var c04Mutators = []string{"setstorage", "addbal", "subbal", "setbal", "setnonce", "incnonce", "setdata", "rmdata", "setstate", "setcode", "create", "suicide", "addlog", "addrefund", "subrefund", "tstore", "aladdr", "alslot", "addft", "subft", "setft", "transfer"}
 
 func c04GenMutator(r *simrt.Rand, uniq int) c04Op {
 	k := c04Mutators[r.Intn(len(c04Mutators))]
@@ -148,6 +148,9 @@ func c04GenMutator(r *simrt.Rand, uniq int) c04Op {
 			v = nil
 		}
 		op.V = hex.EncodeToString(v)
+	case "setstorage":
+		op.N = uint64(r.Range(1, 15)) // bit mask over the 4 slots
+		op.V = hex.EncodeToString(r.Bytes(4))
 	case "setcode":
 		c := r.Bytes(r.Range(1, 60))
 		c[0] = byte(uniq)
@@ -264,6 +267,19 @@ func (ru *c04Run) apply(op c04Op) {
 		st.RemoveData(a, slot)
 	case "setstate":
 		st.SetState(a, common.BytesToHash(slot), common.BytesToHash(val))
+	case "setstorage":
+		// several slots of one account written by one call (the state-override entry point)
+		m := map[common.Hash]common.Hash{}
+		for j := range c04Slots {
+			if op.N&(1<<uint(j)) != 0 {
+				v := common.Hash{}
+				if len(val) > j {
+					v = common.BytesToHash([]byte{val[j] | 1, byte(j)})
+				}
+				m[common.BytesToHash(c04Slots[j])] = v
+			}
+		}
+		st.SetStorage(a, m)
 	case "setcode":
 		st.SetCode(a, val)
 	case "create":
